@@ -11,6 +11,27 @@ CLAIMED = {
          "Every ordered pair of open hypergraphs in the stated universes (millions of pairs, types matching and mismatching) is composed by the real code; the result must be isomorphic (interfaces pinned) to an independently computed gluing, or be None exactly on a type mismatch. Exhaustive within the size bound, so corner shapes (repeated boundary nodes, chains of identifications, zero-arity edges) are all covered.",
          "small-scope bound (<=3 nodes, <=1 hyperedge per operand, 2 labels); Vec backend; the plain reference model and the isomorphism oracle (self-tested against brute force)",
          "DESIGN.md §4 C01"),
+ 'C02': ("bounded exhaustive enumeration of pairs/triples, real tensor vs plain juxtaposition, exact data equality",
+         "All pairs and triples of strict diagrams and of lax diagrams with pending unifications in the stated universes are tensored by the real code (method and `|`); the decoded result (with every raw field re-derived by the deep well-formedness check) must equal the juxtaposition computed on the plain model, and associativity/unit must hold as data.",
+         "small-scope bound (<=2-3 nodes, <=1-2 edges, <=2 pending pairs); plain reference model", "DESIGN.md §4 C02"),
+ 'C03': ("bounded exhaustive enumeration of law instances, both sides through the public API, decided by an isomorphism procedure",
+         "Every composable triple, every pair of composable pairs, every pair of diagrams and every triple of object lists within the bounds instantiates the corresponding law; both sides are computed by the real compose/tensor/identity/twist and compared by isomorphism with interfaces pinned.",
+         "small-scope bound; isomorphism oracle (self-tested against brute force)", "DESIGN.md §4 C03"),
+ 'C04': ("bounded exhaustive enumeration of diagrams, cospan pairs and raw spider arguments; exact and up-to-iso comparison with the plain model",
+         "Dagger is checked as exact data on every diagram (swap, involution, distribution over tensor) and up to isomorphism against composition; spider fusion is checked on every type-matching pair of labelled cospans with legs up to length 3 against cospan composition on the plain model; the acceptance condition of spider/half_spider is checked on every (leg, declared codomain, leg, declared codomain, node list) combination, strict and lax.",
+         "small-scope bound; plain reference gluing", "DESIGN.md §4 C04"),
+ 'C05': ("bounded exhaustive enumeration of operations and of raw constructor arguments; deep well-formedness decoder + type comparison",
+         "Every result of every public constructor and categorical operation over the universes is decoded by a deep well-formedness checker written against the raw public fields and its type compared with the promised one; Hypergraph::new / OpenHypergraph::new see every combination of mismatched counts and codomains and must accept exactly the documented data and name a condition that really fails.",
+         "small-scope bound; functor/optic/conversion outputs are deep-checked inside C10, C12-C14 by the same decoder", "DESIGN.md §4 C05"),
+ 'C06': ("bounded exhaustive enumeration of finite functions, pairs, (sizes,map) pairs and (surjection, map) pairs against functions-as-Vec",
+         "All finite functions with domain and codomain up to 4 (5), all ordered pairs of them, all raw tables, all block-wise injection arguments and all surjections crossed with all maps are pushed through the public API and compared with set-theoretic definitions; coequalizers are compared as partitions (too coarse and too fine both caught) and the universal map must exist exactly when the map is constant on fibres.",
+         "domains/codomains <= 4-5; numbering of coequalizer classes is free", "DESIGN.md §4 C06"),
+ 'C07': ("bounded exhaustive enumeration of primitive arguments against scalar loops (any conforming answer accepted where the contract is open)",
+         "Each of the ~35 array primitives is run on every argument combination within the bounds (arrays of length <=4 over values <=3, index arrays, all range forms, all small edge lists) and compared with its scalar definition inside the documented precondition.",
+         "array length <=4, values <=3; graphs <=4-5 nodes; scalar loops are the specification", "DESIGN.md §4 C07"),
+ 'C08': ("bounded exhaustive enumeration of segmented arrays and operation arguments, list-of-lists decoding; exhaustive exploration of iterator call sequences",
+         "Every segmented array with <=3-4 segments of size <=2 (of finite functions and of labels), every pair, every re-indexing and value map, and every raw (sizes, codomain, length) triple is run through the real API and decoded to lists of lists with the size invariant re-checked; the iterator state machines are explored over every call sequence of next/len/size_hint of length n+2 against a cursor model.",
+         "<=4 segments of size <=2; codomain <=3", "DESIGN.md §4 C08"),
 }
 NOT_YET = "check not built yet in this revision of /verif (work in progress; see DESIGN.md §4)"
 
